@@ -19,14 +19,15 @@ Record scales := { z_pos : list float; z_spd : list float; z_acc : list float; z
 Inductive expect := EHist (rows : list row) (locked : option bool) | EErr (e : exn) (part : list row).      (* locked: the solver's private flag when it can be read *)
 
 Record scase := { k_chain : @chain FX; k_load : @loadexpr FX; k_pos0 : fqty; k_spd0 : fqty; k_ops : list (@sop FX);
-                  k_more : list (@loadexpr FX * list (@sop FX));      (* further segments after the user re-declared the external torque *)
+                  k_more : list (@chain FX * @loadexpr FX * list (@sop FX));   (* further segments after the user re-declared the external torque
+                                                                          or a mating (its efficiency): the chain and load then in force *)
                   k_pre : list (list row);                               (* the history gearpy had on record at each reset it executed *)
                   k_scales : scales;
                   k_expect : expect }.
-Fixpoint exec_segs (c : @chain FX) (segs : list (@loadexpr FX * list (@sop FX))) (st : @sys FX) : res (@sys FX) :=
+Fixpoint exec_segs (segs : list (@chain FX * @loadexpr FX * list (@sop FX))) (st : @sys FX) : res (@sys FX) :=
   match segs with
   | [] => Ok st
-  | (l, ops) :: segs' => st1 <- exec c (eval_load l) ops st ;; exec_segs c segs' st1
+  | (c, l, ops) :: segs' => st1 <- exec c (eval_load l) ops st ;; exec_segs segs' st1
   end.
 
 (** two comparison modes: bit for bit ([tol = false]), or within 1e-9 relative ([tol = true]: used only to CLASSIFY a disagreement
@@ -125,13 +126,13 @@ Fixpoint exec_t (c : @chain FX) load (ops : list (@sop FX)) (st : @sys FX) (acc 
       | _ => match step_op c load st o with Ok st1 => exec_t c load ops' st1 acc | Err e => (st, Some e, acc) end
       end
   end.
-Fixpoint exec_segs_t (c : @chain FX) (segs : list (@loadexpr FX * list (@sop FX))) (st : @sys FX) (acc : list hist)
+Fixpoint exec_segs_t (segs : list (@chain FX * @loadexpr FX * list (@sop FX))) (st : @sys FX) (acc : list hist)
     : @sys FX * option exn * list hist :=
   match segs with
   | [] => (st, None, acc)
-  | (l, ops) :: segs' =>
+  | (c, l, ops) :: segs' =>
       match exec_t c (eval_load l) ops st acc with
-      | (st1, None, acc1) => exec_segs_t c segs' st1 acc1
+      | (st1, None, acc1) => exec_segs_t segs' st1 acc1
       | r => r
       end
   end.
@@ -168,12 +169,12 @@ Fixpoint exec_ft (c : @chain FX) load (ops : list (@sop FX)) (st : @sys FX) : op
       | _ => match step_op c load st o with Ok st1 => exec_ft c load ops' st1 | Err _ => (None, None) end
       end
   end.
-Fixpoint exec_segs_ft (c : @chain FX) (segs : list (@loadexpr FX * list (@sop FX))) (st : @sys FX) : option fqty :=
+Fixpoint exec_segs_ft (segs : list (@chain FX * @loadexpr FX * list (@sop FX))) (st : @sys FX) : option fqty :=
   match segs with
   | [] => None
-  | (l, ops) :: segs' =>
+  | (c, l, ops) :: segs' =>
       match exec_ft c (eval_load l) ops st with
-      | (_, Some st1) => exec_segs_ft c segs' st1
+      | (_, Some st1) => exec_segs_ft segs' st1
       | (t, None) => t
       end
   end.
@@ -193,7 +194,7 @@ Definition exn_code (e : exn) : N :=
   match e with TypeError => 1 | ValueError => 2 | KeyError => 3 | ZeroDivisionError => 4 | NameError => 5 | IndexError => 6
              | AttributeError => 7 | OracleMiss => 8 | OutOfFuel => 9 end.
 Definition case_code (k : scase) : N * N :=
-  match exec_segs_t (k_chain k) ((k_load k, k_ops k) :: k_more k) (initial (k_pos0 k) (k_spd0 k)) [] with
+  match exec_segs_t ((k_chain k, k_load k, k_ops k) :: k_more k) (initial (k_pos0 k) (k_spd0 k)) [] with
   | (stp, e, hs) =>
       match first_diff (k_scales k) hs (k_pre k) with
       | Some ci => ci
@@ -221,7 +222,7 @@ Definition case_code (k : scase) : N * N :=
               if negb (N.eqb (fst ci) 0) then ci else
               (* gearpy recorded the instant at which the model raised: at the same time? *)
               match (if Nat.leb nh np then nth_error mine (length cur) else None),
-                    exec_segs_ft (k_chain k) ((k_load k, k_ops k) :: k_more k) (initial (k_pos0 k) (k_spd0 k)) with
+                    exec_segs_ft ((k_chain k, k_load k, k_ops k) :: k_more k) (initial (k_pos0 k) (k_spd0 k)) with
               | Some r, Some t => if fu_eqb t (r_time r) then (14, exn_code x)%N else (1%N, N.of_nat (length cur))
               | _, _ => (14, exn_code x)%N
               end
